@@ -310,6 +310,26 @@ class ModelBatch:
         return len(self.reqs) - 1
 
 
+def wf_certificate(path, leanio, nlev=None):
+    """Does the plotfile at `path` (as bytes on disk) pass the Lean well-formedness certificate `Taste.pltWFB` for all its
+    levels?  Then `C03.certificate_sound` says the validator model reports it good for every admissible limit and both
+    binary options.  Returns None when it passes, otherwise what does not (for a header with repeated names: 'names')."""
+    tree = snapshot(path)
+    b = ModelBatch()
+    from .writers import header_request
+    content = header_request(tree.get("Header", b"").decode("latin1"))
+    if content is None:
+        return "no line structure"
+    if len(set(content["names"])) != len(content["names"]):
+        return "names"
+    n = len(content["levels"]) if nlev is None else nlev
+    i = b.wf(tree, n)
+    if i is None:
+        return "no line structure"
+    r = leanio.driver(b.reqs)[i]
+    return None if r.get("wf") is True else f"certificate fails: {r}"
+
+
 # --------------------------------------------------------------------------- reading after acceptance (C20)
 
 def named_fab(data, lo, hi):
